@@ -3,7 +3,7 @@ from . import _hub
 
 CONFIG = dict(
     modules=["SigModel.Props.C06"],
-    theorems=["SigModel.Hub.reachable_inv", "SigModel.Hub.C06_queue_or_write", "SigModel.Hub.C06_resume_flushes_in_order", "SigModel.Hub.C06_resume_off_expiry_list", "SigModel.Hub.C06_resume_clears_expiry", "SigModel.Hub.C06_unknown_id_refused", "SigModel.Hub.C06_ended_refused", "SigModel.Hub.C06_bye_ends_session", "SigModel.Hub.flushPending_outs"],
+    theorems=["SigModel.Hub.reachable_inv", "SigModel.Hub.C06_queue_or_write", "SigModel.Hub.C06_resume_flushes_in_order", "SigModel.Hub.C06_resume_off_expiry_list", "SigModel.Hub.C06_resume_clears_expiry", "SigModel.Hub.C06_no_message_dropped_on_dead_connection", "SigModel.Hub.C06_unknown_id_refused", "SigModel.Hub.C06_ended_refused", "SigModel.Hub.C06_bye_ends_session", "SigModel.Hub.flushPending_outs"],
     generated=["Hub"],
     harness=_hub.HARNESS,
     stats=_hub.stats,
